@@ -113,7 +113,7 @@ func c19Enc(flavour int) {
 	e.EncodeRaw(pre)
 	err := e.EncodeNested(tag, m)
 	if fail {
-		verifAssert(err == errC19, "the nested message's error is returned to the caller unchanged")
+		verifAssert(errors.Is(err, errC19), "the nested message's error is returned to the caller (possibly wrapped)")
 		verifReach("end")
 		return
 	}
@@ -150,7 +150,7 @@ func H_C19_Enc_Unsupported() {
 	buf := nondetBytesLen("buf", klen+1)
 	e := NewEncoder(buf)
 	err := e.EncodeNested(tag, &c03Opaque{})
-	verifAssert(err == ErrMarshaler, "an unsupported nested message is reported with the documented error")
+	verifAssert(errors.Is(err, ErrMarshaler), "an unsupported nested message is reported with the documented error")
 	verifReach("end")
 }
 
@@ -166,7 +166,7 @@ func H_C19_Dec() {
 	} else if want >= 0 {
 		verifAssert2(u.calls == 1, len(u.got) == want-c03VarintLen(s), "the nested decoder sees exactly the declared length")
 		if u.fail {
-			verifAssert2(err == errC03Nested, s.d.Offset() == s.off, "an error from the nested message propagates; the cursor stays")
+			verifAssert2(errors.Is(err, errC03Nested), s.d.Offset() == s.off, "an error from the nested message propagates; the cursor stays")
 		} else {
 			verifAssert2(err == nil, s.d.Offset() == s.off+want, "decoding consumes exactly the declared length")
 		}
